@@ -35,6 +35,7 @@ VMODES = {
     "raise": {"raise": True},
     "no-print,fail": {"print": False, "fail": True},
     "match": {"match": True},
+    "stop": {"stop": True},
 }
 
 NUMERIC_FUNCS = {
@@ -54,7 +55,7 @@ NUMERIC_FUNCS = {
 
 
 def kinds(tier):
-    ks = ["argtype", "rule", "pyexc", "righthand", "nested", "two-components", "direct"]
+    ks = ["argtype", "rule", "pyexc", "righthand", "nested", "two-components", "direct", "stop-same-line"]
     return ks
 
 
@@ -65,6 +66,9 @@ def build(kind, faults, func=None):
         bad = ln in faults
         if kind in ("argtype", "nested", "two-components", "func", "direct"):
             rows.append(["zz" if bad else str(ln), "2", "t"])
+        elif kind == "stop-same-line":
+            # the line that faults is also the line on which a later component stops the run; more components follow
+            rows.append(["zz" if bad else str(ln), "9" if bad else "2", "t"])
         elif kind == "rule":
             # substring()'s 2nd argument must be a positive int: int(#0) < 0 on fault lines
             rows.append(["-1" if bad else "3", "5", "abcdef"])
@@ -86,6 +90,8 @@ def build(kind, faults, func=None):
         m = "and(yes(), gt(add(#0, 1), 0))"
     elif kind == "two-components":
         m = "@x = add(#0, 1) @y = subtract(#0, 1)"
+    elif kind == "stop-same-line":
+        m = "@x = add(#0, 1) stop(#1 == 9) @y = count_lines() @z = line_number()"
     elif kind == "direct":
         # the faulting function is itself the match component (its own vote is at stake under validation-mode match)
         m = "between(#0, 0, 100)"
@@ -187,10 +193,10 @@ def run_case(case, agg):
     processed = []
     for f in faults:
         processed.append(f)
-        if eff["raise"] or eff["stop"]:
+        if eff["raise"] or eff["stop"] or kind == "stop-same-line":
             break
     last_line = NLINES - 2 if headerless else NLINES - 1
-    cutoff = processed[-1] if (eff["raise"] or eff["stop"]) else last_line
+    cutoff = processed[-1] if (eff["raise"] or eff["stop"] or kind == "stop-same-line") else last_line
     problems = []
     want_exc = eff["raise"]
     if (exc is not None) != want_exc:
